@@ -1,14 +1,16 @@
 #!/bin/bash
-# usage: try_seed.sh <seed-dir-name | path/to/patch.diff> <check...>   (scratch copy under /tmp/scratch2, removed afterwards)
+# usage: try_seed.sh <seed-dir-name | path/to/patch.diff> <check...>   (private scratch copy under /tmp, removed afterwards)
 set -u
-S=/tmp/scratch2/repo
-mkdir -p /tmp/scratch2
+D=/tmp/scratch2-$$
+S=$D/repo
+mkdir -p $D
 rsync -a --delete --exclude target --exclude .git /repo/ $S/
 P=$1; shift
 [ -f "$P" ] || P=/verif/seeded/$P/patch.diff
-( cd $S && patch -p1 -s -i $P ) || { echo "PATCH FAILED"; exit 2; }
+( cd $S && patch -p1 -s -i $P ) || { echo "PATCH FAILED"; rm -rf $D; exit 2; }
 cd /verif
 for c in "$@"; do
-  MCV_REPO=$S ./bin/check $c --tier quick 2>&1 | grep -v "^VIOLATION\|^\[export" | cut -c1-420 | head -${LINES_MAX:-6}
+  MCV_REPO=$S MCV_EVDIR=$D/evidence ./bin/check $c --tier quick 2>&1 | grep -v "^VIOLATION\|^\[export" | cut -c1-420 | head -${LINES_MAX:-6}
 done
-rm -rf /tmp/scratch2
+H=$(python3 -c "import hashlib;print(hashlib.sha256('$S'.encode()).hexdigest()[:10])")
+rm -rf $D /verif/.cache/target-repo-$H /verif/.cache/target-harness-$H /verif/.cache/harness-$H
